@@ -25,7 +25,7 @@ for s in subsets:
         jobs.append((s, "release"))
 NPAR = 4
 def cmd_for(s, profile):
-    c = ["cargo", "build", "--offline", "--lib", "--manifest-path", "/repo/Cargo.toml", "--no-default-features"]
+    c = ["cargo", "build", "--offline", "--lib", "--manifest-path", os.path.join(os.environ.get("NBMC_REPO", "/repo"), "Cargo.toml"), "--no-default-features"]
     if s:
         c += ["--features", " ".join(s)]
     if profile == "release":
